@@ -14,7 +14,8 @@
 //!   `upsert_mut`, signed by the real `add_zone_signing_key_mut` + `secure_zone_mut`, wrapped in
 //!   a real `Catalog`; `Built::records` is the full dump including RRSIG / NSEC / NSEC3.
 //! * [`query_bytes`], [`ask`] – wire query -> `vsim::serve` (real `Catalog::handle_request`) -> `Message`.
-//! * [`ref_rr`], [`ref_name`], [`hname`] – conversions between hickory records and reference records.
+//! * [`ref_rr`], [`ref_name`], [`ref_nsec`], [`ref_nsec3`], [`hname`] – conversions between hickory
+//!   records and reference records.
 //! * [`zone_key`], [`anchors`] – the fixed Ed25519 key of a zone (derived from the origin), trust anchors.
 //! * [`Upstream`], [`validate`] – a scripted `DnsHandle` (virtual clock via `SimProvider`) and one
 //!   lookup through the real `DnssecDnsHandle` on top of it.
@@ -568,6 +569,31 @@ pub fn ref_rr(r: &Record) -> rz::Rr {
         o => rz::RData::Other(format!("{o}")),
     };
     rz::Rr { owner: ref_name(&r.name), rtype: t, rdata: rd }
+}
+
+/// A genuine NSEC record in the reference model's abstract form (`zone` = apex of its zone).
+pub fn ref_nsec(zone: &Name, owner: &Name, nsec: &NSEC) -> vref::denial::NsecRec {
+    vref::denial::NsecRec {
+        zone: ref_name(zone),
+        owner: ref_name(owner),
+        next: ref_name(nsec.next_domain_name()),
+        types: nsec.type_set().iter().map(u16::from).collect(),
+    }
+}
+
+/// A genuine NSEC3 record in abstract form; None if the first owner label is not base32hex.
+pub fn ref_nsec3(zone: &Name, owner: &Name, n3: &NSEC3) -> Option<vref::denial::Nsec3Rec> {
+    let first = owner.iter().next()?;
+    let hash = vref::denial::base32hex_decode(std::str::from_utf8(first).ok()?)?;
+    Some(vref::denial::Nsec3Rec {
+        zone: ref_name(zone),
+        hash,
+        next: n3.next_hashed_owner_name().to_vec(),
+        types: n3.type_set().iter().map(u16::from).collect(),
+        opt_out: n3.opt_out(),
+        iterations: n3.iterations(),
+        salt: n3.salt().to_vec(),
+    })
 }
 
 // ------------------------------------------------------------------------------------------
